@@ -242,6 +242,10 @@ def step (st : Unit) (line : String) : Unit × String :=
     match rfund.toNat?, parseNats amts with
     | some r, some a => ((), bci (same == "1") r a fail)
     | _, _ => ((), "bad-op")
+  | ["patt", _, "panic"] =>
+    -- the handler panics: not tolerated, the claim transaction fails as a whole (nothing of it is written)
+    let r := FxVerif.Model.C18P.run (P.panicAt (P.baseEnv [] 0) "k.AttestationHandler" 0) attestationProg
+    ((), s!"flow={P.flowStr r.1} cats=-")
   | ["patt", hcat, ok] => ((), P.att hcat (ok == "ok"))
   | ["pgov", n, f, kind] =>
     match n.toNat?, P.optNat f with
